@@ -44,6 +44,9 @@ UserStep(w) ==
 LibStep(w) ==
   \/ \E n \in D : QPop(w, w, n) \/ SchedRun(w, n)
   \/ \E v \in W, n \in D : QTake(w, v, n)
+  \* work-stealing API ("wsapi" in Ops): take with a decision callback that may decline, and peek
+  \/ "wsapi" \in Ops /\ \E v \in W, cand \in D, n \in D \cup {0} : QTakeEx(w, v, cand, n)
+  \/ "wsapi" \in Ops /\ \E v \in W, n \in D \cup {0} : QPeek(w, v, n, 0)
   \/ \E d \in D : QPush(w, w, d) \/ QPut(w, w, d) \/ DescFree(w, w, d)
   \/ \E l \in L : SpinAcq(w, l) \/ SpinRel(w, l)
   \/ \E c \in D, l \in L, f \in {0, 1} : DescAlloc(w, w, c, l, f)
